@@ -108,19 +108,22 @@ theorem mode_bound (m bound : Nat) (hm : m ≠ 0) (tbl : RangeTable)
       · omega)
     (fun _ h0 => absurd h0.symm hm) h
 
-/-- ECHAR entries are single code points that `echarDecode` maps back. -/
+/-- ECHAR entries: every code point of the (short: `echarDecode` has eight values) entry is mapped
+    back by `echarDecode`. Only the points of mode-1 entries are enumerated. -/
 def echarChk (echar : RangeTable) (lo hi v : Nat) : Bool :=
-  v != 1 || (lo == hi && echarDecode (lookup echar 0 lo) == some lo)
+  v != 1 || (decide (hi - lo < 16) &&
+    (List.range (hi - lo + 1)).all (fun i => echarDecode (lookup echar 0 (lo + i)) == some (lo + i)))
 
 theorem echar_ok (echar tbl : RangeTable) (h : entAll tbl (echarChk echar) = true) :
     ∀ c, lookup tbl 0 c = 1 → echarDecode (lookup echar 0 c) = some c :=
   lookup_entries tbl 0 _ (fun c v => v = 1 → echarDecode (lookup echar 0 c) = some c)
     (fun lo hi v hv c h1 h2 hv1 => by
-      simp only [echarChk, Bool.or_eq_true, bne_iff_ne, ne_eq, Bool.and_eq_true, beq_iff_eq] at hv
-      rcases hv with hv | ⟨hv, hdec⟩
+      simp only [echarChk, Bool.or_eq_true, bne_iff_ne, ne_eq, Bool.and_eq_true, beq_iff_eq,
+        List.all_eq_true, List.mem_range, decide_eq_true_eq] at hv
+      rcases hv with hv | ⟨_, hdec⟩
       · exact absurd hv1 hv
-      · have : c = lo := by omega
-        subst this; exact hdec)
+      · have := hdec (c - lo) (by omega)
+        rwa [show lo + (c - lo) = c by omega] at this)
     (fun _ h0 => by omega) h
 
 def hexChk (hexDec : RangeTable) : Bool :=
